@@ -1,5 +1,7 @@
 import BSModel.Proofs.Formatter
 import BSModel.Proofs.FormatterBuild
+import BSModel.Proofs.FormatterPopulate
+import BSModel.Gen.FormatterHtml5
 import BSModel.Gen.Formatter
 /-! # C15 — formatter options take effect and output is deterministic
 
@@ -601,5 +603,51 @@ example : renderMode { mkHTMLFormatter { entity_substitution := .html } with cda
       (build { htmlish with preserveWhitespaceTags := htmlish.preserveWhitespaceTags.reverse }
         (.tag [112] [([98], some [233]), ([97], none)] [.tag [98, 114] [] [], .str .text [8807, 824]]))
     = .ok (ofS "<p a=\"\" b=\"&eacute;\">\n <br/>\n &ngeqq;\n</p>\n") := by decide +kernel
+
+/-! ## how the entity regex is assembled (`EntitySubstitution._populate_class_variables`)
+
+    `populateAlts items codepoint2name` mirrors the construction from the two stdlib tables; the sets the code uses
+    (`short_entities`, the values of `long_entities_by_first_character`, `particles`) are kept in one particular order there. -/
+
+/-- **For every input table** in which no long key is a proper prefix of another and none starts with `&`, the
+    alternatives the construction produces are mutually exclusive at every position: distinct keys, and every one-code-point
+    key that starts longer keys carries the look-ahead for each of their second code points. -/
+theorem populate_exclusive (items : List (PStr × PStr)) (c2n : List (Nat × PStr)) (h : TableOK items) :
+    Exclusive (populateAlts items c2n) := populateAlts_exclusive items c2n h
+
+/-- The whole `html.entities.html5` table of the running interpreter satisfies the hypothesis. -/
+theorem html5_table_ok : TableOK BS.Gen.c15Html5Items := tableOKChk_sound _ (by decide +kernel)
+
+/-- Hence, for every such table, `substitute_html` does not depend on the order in which the sets were iterated: any
+    relisting of the code points inside the look-ahead classes (`f`) followed by any relisting of the alternatives gives
+    the same function. -/
+theorem populate_order_irrelevant (items : List (PStr × PStr)) (c2n : List (Nat × PStr)) (h : TableOK items)
+    (f : Alt → Alt) (hk : ∀ a, (f a).key = a.key) (hr : ∀ a, (f a).repl = a.repl)
+    (hn : ∀ a x, x ∈ (f a).notNext ↔ x ∈ a.notNext)
+    (alts' : List Alt) (hp : alts'.Perm ((populateAlts items c2n).map f)) (s : PStr) :
+    reSub alts' s = reSub (populateAlts items c2n) s := by
+  rw [reSub_perm _ alts' (exclusive_map _ f hk hn (populate_exclusive items c2n h)) hp s,
+    reSub_map_congr _ f hk hr hn s]
+
+/-- for the live tables -/
+theorem populate_order_irrelevant_live (f : Alt → Alt) (hk : ∀ a, (f a).key = a.key) (hr : ∀ a, (f a).repl = a.repl)
+    (hn : ∀ a x, x ∈ (f a).notNext ↔ x ∈ a.notNext)
+    (alts' : List Alt) (hp : alts'.Perm ((populateAlts BS.Gen.c15Html5Items BS.Gen.c15Codepoint2name).map f)) (s : PStr) :
+    reSub alts' s = reSub (populateAlts BS.Gen.c15Html5Items BS.Gen.c15Codepoint2name) s :=
+  populate_order_irrelevant _ _ html5_table_ok f hk hr hn alts' hp s
+
+/-- a five-entry table: `≧` starts `≧̸`, so it gets the look-ahead; `lt` keeps its name; `&` is always there -/
+def tinyTable : List (PStr × PStr) :=
+  [([71, 69, 59], [8807]), ([97, 109, 112, 59], [38]), ([101, 97, 99, 117, 116, 101, 59], [233]), ([108, 116, 59], [60]),
+   ([110, 103, 69, 59], [8807, 824])]
+
+example : populateAlts tinyTable [] =
+    [⟨[8807], [824], ofS "&GE;"⟩, ⟨[233], [], ofS "&eacute;"⟩, ⟨[60], [], ofS "&lt;"⟩, ⟨[8807, 824], [], ofS "&ngE;"⟩,
+     ⟨[38], [], ofS "&amp;"⟩] := by decide +kernel
+example : TableOK tinyTable := tableOKChk_sound _ (by decide)
+example : reSub (populateAlts tinyTable []).reverse [8807, 824, 8807, 38] = ofS "&ngE;&GE;&amp;" := by decide +kernel
+/-- the hypothesis is needed: with a long key that is a proper prefix of another the construction has no look-ahead for it -/
+example : ¬ TableOK [([97, 59], [8807, 824]), ([98, 59], [8807, 824, 824])] := by
+  intro h; have := h.1 [8807, 824] (by decide) [8807, 824, 824] (by decide) (by decide); exact absurd this (by decide)
 
 end BS.Props.C15
